@@ -902,6 +902,12 @@ func (m *CmdModel) execSimple(raw string) interface{} {
 		}
 		return nil
 	}
+	if strings.HasPrefix(name, ")") {
+		// a line that starts with the closing parenthesis of a block, reached from outside that block (after a
+		// goto out of it): no emitted script of the unchanged tree gets here, and what cmd.exe does with such a
+		// line is not part of its documented rules
+		m.scriptError("control reaches the closing parenthesis of a block it is not in (%q): the behaviour is outside cmd's documented rules", name)
+	}
 	m.unmodelled("external or unknown command %q", name)
 	return nil
 }
